@@ -3,6 +3,7 @@
 -/
 import PsProofs.IterRun
 import PsProofs.MaxPrime
+import PsModel.Generated.Locks
 
 namespace Ps.Props
 open Ps Ps.Spec
@@ -75,5 +76,16 @@ theorem C10_checkedAdd (x y : Nat) :
 /-- **C10** `checkedSub` saturates at 0 instead of wrapping -/
 theorem C10_checkedSub (x y : Nat) : checkedSub x y = x - y := by
   rcases checkedSub_cases x y with h | h <;> omega
+
+/-- **C10 (model sources)** regenerated on every run: digests of the (comment-, hook- and whitespace-normalised) bodies of the
+    functions that the hand-written model behind the theorems of this file mirrors.  An edit to one of
+    them — harmless or not — breaks this obligation; the check then searches for a failing input
+    with the correspondence streams (DESIGN.md section 2, step 5). -/
+theorem C10_model_sources :
+    Gen.modelSources.filter (fun e => e.1 ∈ ["ParallelSieve.align", "pmath.checkedAdd", "pmath.checkedSub", "pmath.inBetween"]) =
+     [("ParallelSieve.align", "60dc0866ae1c2879bdbc"),
+      ("pmath.checkedAdd", "4fb81eb990b73946889d"),
+      ("pmath.checkedSub", "fafc1440897134234d4b"),
+      ("pmath.inBetween", "522b4f74f8bd12b4cba0")] := by decide
 
 end Ps.Props
